@@ -1,0 +1,52 @@
+//go:build verif
+
+// Contracts for the 04-packet keeper (comment-only; read by /verif's tibcvc).
+package keeper
+
+//@ import clientkeeper "github.com/bianjieai/tibc-go/modules/tibc/core/02-client/keeper"
+//@ import routingkeeper "github.com/bianjieai/tibc-go/modules/tibc/core/26-routing/keeper"
+
+//@ wire (Keeper).storeKey = store tibc
+//@ wire (Keeper).clientKeeper = clientkeeper.Keeper
+//@ wire (Keeper).routingKeeper = routingkeeper.Keeper
+
+//@ spec nextSendVal(o: opt): u64 = ite(present(o), u64(o), 1)
+
+//@ func (Keeper).SendPacket(ctx, packet) (err)
+//@   props C09
+//@   dyn packet = types.Packet
+//@   modifies tibc, events
+//@   let p      = packet
+//@   let me     = clientkeeper.selfName(tibc)
+//@   let target = ite(len(p.RelayChain) > 0, p.RelayChain, p.DestinationChain)
+//@   let ns     = nextSendVal(tibc[nextSend(p.SourceChain, p.DestinationChain)])
+//@   let pre    = p.Sequence != 0 && len(p.Data) != 0 && p.SourceChain == me && present(tibc[clientState(target)]) && p.Sequence == ns
+//@   requires nowrap: ns <u MAXU64
+//@   ensures iff:    err == nil <==> pre
+//@   ensures state:  err == nil ==> tibc == old(tibc)[nextSend(p.SourceChain, p.DestinationChain) := enc64(ns + 1)][commit(p.SourceChain, p.DestinationChain, p.Sequence) := sha256(str(p.Data))]
+//@   ensures atomic: err != nil ==> tibc == old(tibc) && events == old(events)
+//@   ensures event:  err == nil ==> events == econs(ev(sdk.EventTypeMessage, sdk.AttributeKeyModule, types.AttributeValueCategory),
+//@                      econs(ev(types.EventTypeSendPacket, types.AttributeKeyData, str(p.Data), types.AttributeKeySequence, itoa(p.Sequence),
+//@                               types.AttributeKeyPort, p.Port, types.AttributeKeySrcChain, p.SourceChain, types.AttributeKeyDstChain, p.DestinationChain,
+//@                               types.AttributeKeyRelayChain, p.RelayChain), old(events)))
+//@
+//@ func (Keeper).ValidatePacket(ctx, packet) (err)
+//@   props C01 C02 C10
+//@   dyn packet = types.Packet
+//@   let p  = packet
+//@   let me = clientkeeper.selfName(tibc)
+//@   ensures iff: err == nil <==> (p.Sequence != 0 && len(p.Data) != 0 && (p.RelayChain == me || p.DestinationChain == me || p.SourceChain == me)
+//@                                 && p.Sequence >u u64(tibc[cleanPt(p.SourceChain, p.DestinationChain)]))
+//@
+//@ func (Keeper).ValidateCleanPacket(ctx, cleanPacket) (err)
+//@   props C10
+//@   dyn cleanPacket = types.CleanPacket
+//@   let cp = cleanPacket
+//@   let c0 = u64(tibc[cleanPt(cp.SourceChain, cp.DestinationChain)])
+//@   let mx = u64(tibc[maxAck(cp.SourceChain, cp.DestinationChain)])
+//@   requires seqbound: mx <u MAXU64
+//@   ensures iff: err == nil <==> (c0 <u cp.Sequence && cp.Sequence <=u mx &&
+//@                  (forall n: u64 :: c0 <=u n && n <=u cp.Sequence ==> !present(tibc[commit(cp.SourceChain, cp.DestinationChain, n)])))
+//@   loop #0 invariant range:    c0 <u cp.Sequence && cp.Sequence <=u mx && c0 <=u seq && seq <=u cp.Sequence + 1
+//@   loop #0 invariant nocommit: forall n: u64 :: c0 <=u n && n <u seq ==> !present(tibc[commit(cp.SourceChain, cp.DestinationChain, n)])
+//@   loop #0 decreases cp.Sequence + 1 - seq
